@@ -382,10 +382,19 @@ func runSchedule(c *core.Case, class string, st *stream, cut int, term error, wi
 			viol("reader-error-not-surfaced", fmt.Sprintf("reader failed with %v after %d bytes, Decode returned %v after %d of %d values", term, cut, termErr, len(got), len(want)))
 		}
 	}
-	// sticky: a further Decode must not yield a value
-	var extra json.RawMessage
-	if err := dec.Decode(&extra); err == nil {
-		viol("value-after-terminal", fmt.Sprintf("Decode returned %q after the terminal result %v", trunc(extra), termErr))
+	// sticky: further Decode calls must not yield a value, and a stream that ended badly does not
+	// turn into one that ended cleanly (nor the other way round)
+	for k := 0; k < 2; k++ {
+		var extra json.RawMessage
+		err := dec.Decode(&extra)
+		if err == nil {
+			viol("value-after-terminal", fmt.Sprintf("Decode returned %q after the terminal result %v", trunc(extra), termErr))
+			break
+		}
+		if termErr != nil && (err == io.EOF) != (termErr == io.EOF) {
+			viol("terminal-result-not-sticky", fmt.Sprintf("Decode returned %v, and on the next call %v", termErr, err))
+			break
+		}
 	}
 	return got, ok
 }
@@ -557,7 +566,7 @@ func runParseRest(c *core.Case) {
 func init() {
 	core.Register(&core.Monitor{
 		Prop:    "C11",
-		Rule:    "streams: a generated stream of JSON values (profiles: 1-200 small values; fixed-width top-level scalar records crossing every refill boundary up to 140 KiB; one string/number/array of about 4095..65537 bytes; values straddling those offsets; a 1 MiB string) x terminal scenarios (clean io.EOF, data returned together with io.EOF, end of input / injected reader error at value boundaries +-1 and random offsets) x chunk schedules (whole input, 1, 2, 7, 4095, 4096, 4097, 32768, random small/mixed/large, zero-length reads interleaved). For each run the values (RawMessage bytes, or `any` with UseNumber) must equal those of encoding/json's Decoder over a single bytes.Reader of the delivered bytes; the terminal result must be io.EOF exactly at a clean end, a non-EOF error inside a value, and the reader's own error when it failed; InputOffset must be monotone and lie in [end of value, start of next]; Buffered() followed by the unread part of the reader must be the unconsumed input starting in that same interval; no value after the terminal result. short: streams of <= 5 small values with the end of input / reader error at EVERY offset. parse-remainder: Parse must return exactly the bytes after the first value and its trailing whitespace (also when decoding the value fails with a type error). Distinct by stream hash.",
+		Rule:    "streams: a generated stream of JSON values (profiles: 1-200 small values; fixed-width top-level scalar records crossing every refill boundary up to 140 KiB; one string/number/array of about 4095..65537 bytes; values straddling those offsets; a 1 MiB string) x terminal scenarios (clean io.EOF, data returned together with io.EOF, end of input / injected reader error at value boundaries +-1 and random offsets) x chunk schedules (whole input, 1, 2, 7, 4095, 4096, 4097, 32768, random small/mixed/large, zero-length reads interleaved). For each run the values (RawMessage bytes, or `any` with UseNumber) must equal those of encoding/json's Decoder over a single bytes.Reader of the delivered bytes; the terminal result must be io.EOF exactly at a clean end, a non-EOF error inside a value, and the reader's own error when it failed; InputOffset must be monotone and lie in [end of value, start of next]; Buffered() followed by the unread part of the reader must be the unconsumed input starting in that same interval; no value after the terminal result, and two further Decode calls keep reporting the same kind of end (io.EOF stays io.EOF, an error stays an error). short: streams of <= 5 small values with the end of input / reader error at EVERY offset. parse-remainder: Parse must return exactly the bytes after the first value and its trailing whitespace (also when decoding the value fails with a type error). Distinct by stream hash.",
 		Trusted: []string{"encoding/json.Decoder over bytes.Reader (go1.23.5) as the single-read reference", "the generator's own record of where each value starts and ends"},
 		Subs: []core.Sub{
 			{Name: "streams", N: core.Const(800, 8000), Run: runStreams},
